@@ -123,6 +123,10 @@ MUTANTS = [
     ("m_c14_csvset", "C14", A,
      "        for base_pair in structure2d.baseInteractions.basePairs:\n            writer.writerow(",
      "        for base_pair in set(structure2d.baseInteractions.basePairs):\n            writer.writerow("),
+    ("m_c14_bphset", "C14", A,
+     "    bph_map = merge_and_clean_bph_br(sorted(base_phosphate_pairs))", "    bph_map = merge_and_clean_bph_br(list(set(base_phosphate_pairs)))"),
+    ("m_c14_brset", "C14", A,
+     "    br_map = merge_and_clean_bph_br(sorted(base_ribose_pairs))", "    br_map = merge_and_clean_bph_br(list(set(base_ribose_pairs)))"),
     ("m_c14_stackset", "C14", A,
      "    for residue_i, residue_j, topology in sorted(pairs):", "    for residue_i, residue_j, topology in set(pairs):"),
     ("m_c14_bpset", "C14", A,
